@@ -37,7 +37,10 @@ def build(code, ident, auth, attrs, secret=None, rqauth=None, sign=True, msgauth
         items.append((t, bytes(16) if v is None else bytes(v), v is None))
     body = b"".join(attr(t, v) for t, v, _ in items) if raw_attrs is None else raw_attrs
     ln = 20 + len(body)
-    if code in (ACCESS_ACCEPT, ACCESS_REJECT, ACCESS_CHALLENGE, ACCT_RESPONSE) and rqauth is not None:
+    # (a packet made as the answer to a request - rqauth given - is signed like a reply whatever its code, request codes aside:
+    #  "its code is a response code" is then the only thing wrong with it)
+    replylike = rqauth is not None and code not in (ACCESS_REQUEST, ACCT_REQUEST, 12)
+    if (code in (ACCESS_ACCEPT, ACCESS_REJECT, ACCESS_CHALLENGE, ACCT_RESPONSE) or replylike) and rqauth is not None:
         hdr_auth = rqauth
     elif code == ACCT_REQUEST and sign:
         hdr_auth = bytes(16)
@@ -54,7 +57,7 @@ def build(code, ident, auth, attrs, secret=None, rqauth=None, sign=True, msgauth
                 pkt[off + 2:off + 18] = mac
             off += 2 + len(v)
     if secret is not None and sign:
-        if code in (ACCESS_ACCEPT, ACCESS_REJECT, ACCESS_CHALLENGE, ACCT_RESPONSE, ACCT_REQUEST):
+        if code in (ACCESS_ACCEPT, ACCESS_REJECT, ACCESS_CHALLENGE, ACCT_RESPONSE, ACCT_REQUEST) or replylike:
             pkt[4:20] = hashlib.md5(bytes(pkt) + secret).digest()
     elif code in (ACCESS_ACCEPT, ACCESS_REJECT, ACCESS_CHALLENGE, ACCT_RESPONSE) and rqauth is not None:
         pkt[4:20] = auth
